@@ -1144,6 +1144,9 @@ def build_streams(chk, names, sizes):
         lines.append(f'charset unrep {joined.replace("u", "e")} {per.replace("u", "e")} {",".join(hexchars(c) for c in chars)}')
         outs.append(impl_unrep(chars, joined, per))
     fam['characters'] = (lines, outs)
+    # the twin of the `unrep` lines: Language.get_unrepresentable_characters as REGENERATED from lib/ling.py (Generated.LingFn; op gunrep)
+    gl = [(l.replace('charset unrep ', 'charset gunrep ', 1), o) for l, o in zip(lines, outs) if l.startswith('charset unrep ')]
+    fam['characters-generated'] = ([l for l, _ in gl], [o for _, o in gl])
     # ---- the charset fragment of check_headers
     lines, outs = [], []
     langs = sorted({l + ('@' + m if m else '') for l, m, _ in sects})
